@@ -91,6 +91,10 @@ class VecIterV:
     def merge_with(s, c, other):
         if isinstance(other, VecIterV) and other.v is s.v and other.rev == s.rev: return VecIterV(s.v, merge(c, s.k, other.k), s.rev)
         return None
+class StepV:
+    """Range<int>::step_by(constant)"""
+    __slots__ = ('start', 'end', 'step', 'ty')
+    def __init__(s, start, end, step, ty): s.start = start; s.end = end; s.step = step; s.ty = ty
 class TakeWhileV:
     __slots__ = ('ch', 'clo')
     def __init__(s, ch, clo): s.ch = ch; s.clo = clo
@@ -635,6 +639,27 @@ def bytes_model(ex, c, cs, args, guard, site):
             for k in range(n - 2, -1, -1): val = merge(bv_of(i.t == k), v.f[k], val)
             return cell(ex, val), (T if (i.lo >= 0 and i.hi < n) else okc)
         return None
+    m = re.match(r'^<(?:std::ops::)?Range<(\w+)> as Iterator>::step_by$', cs)
+    if m and m.group(1) in INT_TYPES:
+        rg_ = ex.deref(args[0]); st = args[1].const()
+        if st is None: raise Inconclusive('step_by with a symbolic step')
+        if st == 0: ctx.panics.append((guard, site, 'assertion failed: step != 0')); return None, F
+        return StepV(rg_.f[0], rg_.f[1], st, m.group(1)), T
+    m = re.match(r'^<(?:std::iter::)?StepBy<(?:std::ops::)?Range<(\w+)>> as Iterator>::collect::<Vec<\w+>>$', c)
+    if m:
+        sv = ex.deref(args[0])
+        if not isinstance(sv, StepV): return None
+        K = max(0, (sv.end.hi - sv.start.lo - 1) // sv.step + 1) if sv.end.hi > sv.start.lo else 0
+        if K > 64: raise Inconclusive('step_by(..).collect() of more than 64 elements')
+        items = []; n = z3.IntVal(0); nlo = 0
+        for k in range(K):
+            x = add_iv(sv.start, mk_int(k * sv.step, sv.ty), sv.ty)
+            has = ex.cmp_iv('Lt', x, sv.end)
+            items.append(x)
+            if has.c is True: n = n + 1; nlo += 1
+            elif has.c is None: n = n + z3.If(has.t, 1, 0)
+        ctx.models_used.add('Range::step_by(const).collect::<Vec<_>>() (at most %d elements)' % K)
+        return VecV(items, IV(n, 'usize', nlo, K)), T
     # ---- Vec<T> with a concrete number of elements
     m = re.match(r'^Vec::<.*>::(with_capacity|new)$', c)
     if m: return VecV([]), T
